@@ -1,0 +1,32 @@
+/*
+Verification hooks (schedule points and a virtual clock) for the checks under
+/verif.  Everything here is inert unless the library is compiled with
+-DPHOTON_VERIF; with the guard off every macro expands to nothing.
+*/
+#pragma once
+#ifdef PHOTON_VERIF
+#include <cstdint>
+extern "C" {
+// Called at schedule points when non-null.  `kind` is one of the constants below,
+// `addr` identifies the object (may be null).  The callee may park the calling OS
+// thread and let another one run; it must not call back into photon.
+extern void (*photon_verif_sp)(int kind, const void* addr);
+// When non-null, replaces the wall clock behind photon::now (microseconds).
+extern uint64_t (*photon_verif_clock)();
+}
+enum {
+    PHOTON_VERIF_SP_LOCK     = 1,   // about to acquire a spin-type lock
+    PHOTON_VERIF_SP_TRYLOCK  = 2,
+    PHOTON_VERIF_SP_UNLOCK   = 3,   // just released
+    PHOTON_VERIF_SP_BUSYWAIT = 4,   // inside a spin loop: somebody else has to make progress
+    PHOTON_VERIF_SP_ATOMIC   = 5,   // about to do a lock-free step (CAS / exchange / racy load)
+};
+#define PHOTON_VERIF_SP(kind, addr) \
+    do { if (__builtin_expect(photon_verif_sp != nullptr, 0)) photon_verif_sp((kind), (addr)); } while (0)
+// in a spin loop that would otherwise burn `n` pause instructions: one busy-wait point, then return
+#define PHOTON_VERIF_SPIN_N_RETURN() \
+    do { if (__builtin_expect(photon_verif_sp != nullptr, 0)) { photon_verif_sp(PHOTON_VERIF_SP_BUSYWAIT, nullptr); return; } } while (0)
+#else
+#define PHOTON_VERIF_SP(kind, addr) do { } while (0)
+#define PHOTON_VERIF_SPIN_N_RETURN() do { } while (0)
+#endif
